@@ -1,7 +1,8 @@
 """C08: attached log streams — attach/detach sequences around consecutive commands."""
 import changen as g
 from wire import hx, opt, lst
-from chancommon import KIND, CASE_WALL, run_impl, shrink_candidates, classify_common  # noqa: F401
+from chancommon import KIND, CASE_WALL, shrink_candidates as _chan_shrink, classify_common  # noqa: F401
+from chancommon import run_impl as _chan_run_impl
 
 SPECS = ["C08"]
 THEOREMS = ["C08.case_spec_partial", "C08.case_spec_full_is_false", "C08.attached_invariant", "C08.reads_pass_through", "C08.fw_prefix", "C08.fw_all", "C08.fw_literal", "C08.fw_at_prompt", "C08.detach_clean", "C08.detach_regex", "C08.overlap_spec", "C08.ovl_longest", "C08.asciiT_decodeReplace", "C08.asciiT_fragments", "C08.fwdFor_text", "C08.step"]
@@ -16,7 +17,27 @@ TRUSTED = ["text-level comparison uses the ASCII projection (bytes < 0x80), whic
 ASSUMPTIONS = ["stream contents are observed as the sequence of str fragments written to the attached object"]
 
 
+def run_impl(line):
+    if line.startswith("exec-log"):
+        import c08consumer
+        return c08consumer.run(line)
+    return _chan_run_impl(line)
+
+
+def model_request(line, impl):
+    if line.startswith("exec-log"):
+        return "chanlog " + line + " || " + impl
+    return KIND + " " + line
+
+
+def specs_for(line):
+    return ["C08X"] if line.startswith("exec-log") else SPECS
+
+
 def gen_case(rng, params):
+    if rng.random() < 0.04:
+        import c08consumer
+        return c08consumer.gen(rng, params)
     chunk = rng.choice([1, 2, 3, 7, params["readChunkSize"], params["readChunkSize"]])
     regex = rng.random() < 0.25
     lit = rng.choice(g.PROMPTS)
@@ -66,6 +87,8 @@ def gen_case(rng, params):
 
 
 def classify(line, obs):
+    if line.startswith("exec-log"):
+        return ["consumer=" + line.split()[1]]
     ks = classify_common(line, obs)
     ops = line.split()[4:]
     ks.append("prompt=" + ("regex" if any(o.startswith("wp+") for o in ops) else "literal"))
@@ -88,6 +111,8 @@ def _nesting(line):
 
 
 def nontrivial(line, obs):
+    if line.startswith("exec-log"):
+        return True
     ops = line.split()[4:]
     return any(o.startswith("st+") and o.endswith(":0") for o in ops) or bool(_nesting(line))
 
@@ -122,3 +147,14 @@ def kf_prompt_change(line, impl, model):
     read_until_prompt) while an attachment with suppression is open: the hold-back buffer was
     computed for the old prompt and is neither flushed nor re-examined"""
     return _prompt_change_while_suppressing(line)
+
+
+def shrink_candidates(line):
+    if line.startswith("exec-log"):
+        toks = line.split()
+        n0 = 5 if toks[1] == "uboot" else 3
+        for i in range(n0, len(toks)):
+            if len(toks) - n0 > 1:
+                yield " ".join(toks[:i] + toks[i + 1:])
+        return
+    yield from _chan_shrink(line)
